@@ -2,7 +2,7 @@
   Lemmas for C02 wave 2, part 8: the forward simulation of statements, with the allocation-status
   monitors switched off (`execCL false`).  Props/C02Stmt.lean states the results.
 -/
-import ExoModel.Lemmas.CSimWin
+import ExoModel.Lemmas.CSimCallRep
 
 namespace Exo.CompileS
 open Exo Exo.CIndex Exo.CSem
@@ -61,16 +61,19 @@ theorem block_sim {Γ Γ1 Γ' : CEnv} {B : List Sym} {σ σ1 : State V} {c c1 : 
   exact this.state rfl rfl rfl rfl (by simp [State.leave, h1.heap, hr.heap]) (by simp [State.leave, h1.cfg])
 
 mutual
-theorem simS (ext : String → List V → V) : ∀ (s : Stmt) {Γ Γ' : CEnv} {cs : List CStmt}
+theorem simS (ext : String → List V → V) (cb : List (String × List (Sym × Range.Bound))) :
+    ∀ (s : Stmt) {Γ Γ' : CEnv} {cs : List CStmt}
     {σ σ' : State V} {c : CState V}, compS Γ s = .ok (cs, Γ') → Γ'.modOK = true → Γ.renv ≠ [] →
     execS ext s σ = .ok σ' → Rep Γ σ c → Fresh (bindersS s) Γ σ →
-    SimConcl (bindersS s) Γ' σ σ' cs c
+    Γ.cb = cb → CallsOKS V cb s → SimConcl (bindersS s) Γ' σ σ' cs c
   | .pass, Γ, Γ', cs, σ, σ', c, hc, _, _, he, hr, _ => by
+      intro hΓcb hco
       simp only [compS, pure, Except.pure, Except.ok.injEq, Prod.mk.injEq] at hc
       simp only [execS, pure, Except.pure, Except.ok.injEq] at he
       obtain ⟨rfl, rfl⟩ := hc; subst he
       exact ⟨c, rfl, hr, rfl, fun y hy _ => hy⟩
   | .assign x idx rhs, Γ, Γ', cs, σ, σ', c, hc, hm, _, he, hr, _ => by
+      intro hΓcb hco
       simp only [compS] at hc
       obtain ⟨⟨lv, k1⟩, hlv, hc⟩ := bind_ok hc
       obtain ⟨⟨e, k2⟩, hce, hc⟩ := bind_ok hc
@@ -84,6 +87,7 @@ theorem simS (ext : String → List V → V) : ∀ (s : Stmt) {Γ Γ' : CEnv} {c
       refine ⟨c', singleton_exec (by simp only [execCS, compD_sim ext hr rhs hce hk.2 hv]; exact hc'),
         hr'.change (fun _ _ _ => rfl) rfl rfl hr'.rng, e1, fun y hy _ => by rw [e2]; exact hy⟩
   | .reduce x idx rhs, Γ, Γ', cs, σ, σ', c, hc, hm, _, he, hr, _ => by
+      intro hΓcb hco
       simp only [compS] at hc
       obtain ⟨⟨lv, k1⟩, hlv, hc⟩ := bind_ok hc
       obtain ⟨⟨e, k2⟩, hce, hc⟩ := bind_ok hc
@@ -97,6 +101,7 @@ theorem simS (ext : String → List V → V) : ∀ (s : Stmt) {Γ Γ' : CEnv} {c
       refine ⟨c', singleton_exec (by simp only [execCS, compD_sim ext hr rhs hce hk.2 hv]; exact hc'),
         hr'.change (fun _ _ _ => rfl) rfl rfl hr'.rng, e1, fun y hy _ => by rw [e2]; exact hy⟩
   | .writecfg cf f rhs isData, Γ, Γ', cs, σ, σ', c, hc, hm, _, he, hr, _ => by
+      intro hΓcb hco
       simp only [compS] at hc
       simp only [execS] at he
       cases isData with
@@ -129,6 +134,7 @@ theorem simS (ext : String → List V → V) : ∀ (s : Stmt) {Γ Γ' : CEnv} {c
             hr.state rfl rfl rfl rfl hr.heap (by simp [hr.cfg])
           exact h1.change (fun _ _ _ => rfl) rfl rfl h1.rng
   | .window w (.win x acc), Γ, Γ', cs, σ, σ', c, hc, hm, _, he, hr, hf => by
+      intro hΓcb hco
       simp only [compS] at hc
       obtain ⟨⟨isW, los, strs, ivs, k⟩, hwf, hc⟩ := bind_ok hc
       simp only [pure, Except.pure, Except.ok.injEq, Prod.mk.injEq] at hc
@@ -205,20 +211,28 @@ theorem simS (ext : String → List V → V) : ∀ (s : Stmt) {Γ Γ' : CEnv} {c
             simp [this, hy]
         · cases hvw
   | .window _ (.read _ _), _, _, _, _, _, _, hc, _, _, _, _, _ => by
+      intro hΓcb hco
       simp [compS, throw, throwThe, MonadExceptOf.throw] at hc
   | .window _ (.lit _), _, _, _, _, _, _, hc, _, _, _, _, _ => by
+      intro hΓcb hco
       simp [compS, throw, throwThe, MonadExceptOf.throw] at hc
   | .window _ (.usub _), _, _, _, _, _, _, hc, _, _, _, _, _ => by
+      intro hΓcb hco
       simp [compS, throw, throwThe, MonadExceptOf.throw] at hc
   | .window _ (.binop _ _ _), _, _, _, _, _, _, hc, _, _, _, _, _ => by
+      intro hΓcb hco
       simp [compS, throw, throwThe, MonadExceptOf.throw] at hc
   | .window _ (.extern _ _), _, _, _, _, _, _, hc, _, _, _, _, _ => by
+      intro hΓcb hco
       simp [compS, throw, throwThe, MonadExceptOf.throw] at hc
   | .window _ (.stride _ _), _, _, _, _, _, _, hc, _, _, _, _, _ => by
+      intro hΓcb hco
       simp [compS, throw, throwThe, MonadExceptOf.throw] at hc
   | .window _ (.readcfg _ _), _, _, _, _, _, _, hc, _, _, _, _, _ => by
+      intro hΓcb hco
       simp [compS, throw, throwThe, MonadExceptOf.throw] at hc
   | .ite cnd t e, Γ, Γ', cs, σ, σ', c, hc, hm, hne, he, hr, hf => by
+      intro hΓcb hco
       have hstat := compS_static (.ite cnd t e) hc hne
       simp only [compS] at hc
       obtain ⟨⟨c', k⟩, hcc, hc⟩ := bind_ok hc
@@ -270,19 +284,20 @@ theorem simS (ext : String → List V → V) : ∀ (s : Stmt) {Γ Γ' : CEnv} {c
       by_cases hb0 : b ≠ 0
       · rw [if_pos hb0] at he
         obtain ⟨σ1, hs1, rfl⟩ := map_ok he
-        obtain ⟨c1, hc1, hr1, _, _⟩ := simL ext t ht hm1 hne1 hs1 hrt hft
+        obtain ⟨c1, hc1, hr1, _, _⟩ := simL ext cb t ht hm1 hne1 hs1 hrt hft hΓcb hco.1
         refine ⟨_, singleton_exec (by
           simp only [execCS, hcb, ok_bind, if_pos hb0, hc1, leaveC, Bool.false_and,
             Bool.false_eq_true, if_false]; rfl), ?_, rfl, fun y hy _ => hy⟩
         exact block_sim hr hstat hf.views hr1
       · rw [if_neg hb0] at he
         obtain ⟨σ1, hs1, rfl⟩ := map_ok he
-        obtain ⟨c1, hc1, hr1, _, _⟩ := simL ext e hce hm2 hne2 hs1 hre hfe
+        obtain ⟨c1, hc1, hr1, _, _⟩ := simL ext cb e hce hm2 hne2 hs1 hre hfe (show Γ1.cb = cb from st1.cb.trans hΓcb) hco.2
         refine ⟨_, singleton_exec (by
           simp only [execCS, hcb, ok_bind, if_neg hb0, hc1, leaveC, Bool.false_and,
             Bool.false_eq_true, if_false]; rfl), ?_, rfl, fun y hy _ => hy⟩
         exact block_sim hr hstat hf.views hr1
   | .loop i lo hi body par, Γ, Γ', cs, σ, σ', c, hc, hm, hne, he, hr, hf => by
+      intro hΓcb hco
       have hstat := compS_static (.loop i lo hi body par) hc hne
       simp only [compS] at hc
       obtain ⟨⟨lo', k1⟩, hclo, hc⟩ := bind_ok hc
@@ -359,7 +374,7 @@ theorem simS (ext : String → List V → V) : ∀ (s : Stmt) {Γ Γ' : CEnv} {c
                 · simp only [State.bind]; rw [hpa.2]; exact hf.views b (by simp [bindersS, hb])
                 · exact hf.refs b (by simp [bindersS, hb])
                 · exact hf.known b (by simp [bindersS, hb])
-              obtain ⟨c2, hc2, hr2, _, _⟩ := simL ext body hcb hm1 hneb hs2 hrb hfb
+              obtain ⟨c2, hc2, hr2, _, _⟩ := simL ext cb body hcb hm1 hneb hs2 hrb hfb hΓcb hco
               refine ⟨_, by
                 simp only [hc2, leaveC, Bool.false_and, Bool.false_eq_true, if_false]; rfl, ?_,
                 by simp [State.leave, hpa.1], by simp [State.leave, hpa.2]⟩
@@ -371,6 +386,7 @@ theorem simS (ext : String → List V → V) : ∀ (s : Stmt) {Γ Γ' : CEnv} {c
               fun y hy _ => by rw [hp'.2]; exact hy⟩
             exact hr'.mono hstat (fun b hb => by rw [hp'.2]; exact hf.views b hb)
   | .alloc x shape, Γ, Γ', cs, σ, σ', c, hc, hm, _, he, hr, hf => by
+      intro hΓcb hco
       simp only [compS] at hc
       simp only [execS] at he
       obtain ⟨sh, hsh, he⟩ := bind_ok he
@@ -414,6 +430,7 @@ theorem simS (ext : String → List V → V) : ∀ (s : Stmt) {Γ Γ' : CEnv} {c
             · rw [List.map_map]
               exact congrArg denseDims ds.2.2.symm
   | .free x, Γ, Γ', cs, σ, σ', c, hc, _, _, he, hr, _ => by
+      intro hΓcb hco
       simp only [execS, pure, Except.pure, Except.ok.injEq] at he; subst he
       simp only [compS] at hc
       split at hc
@@ -436,18 +453,64 @@ theorem simS (ext : String → List V → V) : ∀ (s : Stmt) {Γ Γ' : CEnv} {c
           hr.state rfl rfl h1 h2 (by rw [h3]; exact hr.heap) (by rw [h4]; exact hr.cfg), rfl,
           fun y hy _ => hy⟩
       · cases hc
-  | .call _ _, _, _, _, _, _, _, hc, _, _, _, _, _ => by
-      simp [compS, throw, throwThe, MonadExceptOf.throw] at hc
-theorem simL (ext : String → List V → V) : ∀ (ss : List Stmt) {Γ Γ' : CEnv} {cs : List CStmt}
+  | .call (.mk name fargs preds body) args, Γ, Γ', cs, σ, σ', c, hc, hm, _, he, hr, _ => by
+      intro hΓcb hco
+      obtain ⟨hfo, hbo, hcob⟩ := hco
+      simp only [compS] at hc
+      obtain ⟨⟨cas, k⟩, hcas, hc⟩ := bind_ok hc
+      obtain ⟨⟨b', Γf⟩, hcbody, hc⟩ := bind_ok hc
+      simp only [pure, Except.pure, Except.ok.injEq, Prod.mk.injEq] at hc
+      obtain ⟨rfl, rfl⟩ := hc
+      have hk := note_modOK hm
+      rw [Bool.and_eq_true] at hk
+      -- the reference side: `execP`
+      simp only [execS, execP] at he
+      obtain ⟨⟨ce, cv⟩, hba, he⟩ := bind_ok he
+      split at he
+      · simp [throw, throwThe, MonadExceptOf.throw, bind, Except.bind] at he
+      simp only [] at he
+      obtain ⟨_, hcs, he⟩ := bind_ok he
+      obtain ⟨_, hcp, he⟩ := bind_ok he
+      obtain ⟨σ2, hs2, he⟩ := bind_ok he
+      simp only [pure, Except.pure, Except.ok.injEq] at he; subst he
+      -- the actuals
+      obtain ⟨cvs, hbc, hacc, hint⟩ := args_sim hr fargs args hcas hk.1 hba
+        (done := []) (cvs := []) (fun x v hx => by cases hx) (fun x n hx => by cases hx)
+      simp only [List.nil_append] at hacc hint
+      -- the callee's entry state
+      have hin := hbo { env := ce, views := cv, heap := σ.heap, cfg := σ.cfg } hint
+        (bindArgs_bound fargs args hba).1 hcp
+      rw [← hΓcb] at hin
+      have hrc : Rep (initEnvOf fargs preds (cbLookup name Γ.cb) Γ.cb)
+          { env := ce, views := cv, heap := σ.heap, cfg := σ.cfg }
+          ({ c with ints := ce, vals := cvs } : CState V) :=
+        callee_rep hfo rfl hr.heap hr.cfg hacc hcs hcp hin
+      have hfc := callee_fresh (bounds := cbLookup name Γ.cb) (cb := Γ.cb) (cvs := cvs) hfo
+        (σc := { env := ce, views := cv, heap := σ.heap, cfg := σ.cfg }) hint hacc
+      obtain ⟨c2, hc2, hr2, _, _⟩ := simL ext cb body hcbody hk.2
+        (by simp [initEnvOf, Range.Env.initWith]) hs2 hrc hfc hΓcb hcob
+      refine ⟨_, singleton_exec (by
+        simp only [execCS, hbc, ok_bind, hc2, leaveC, Bool.false_and, Bool.false_eq_true,
+          if_false]; rfl), ?_, rfl, fun y hy _ => hy⟩
+      have h1 : Rep Γ (State.leave σ σ2)
+          ({ ints := c.ints, vals := c.vals, heap := c2.heap.take c.heap.length,
+             stat := c2.stat.take c.heap.length, cfg := c2.cfg } : CState V) :=
+        hr.state rfl rfl rfl rfl (by simp [State.leave, hr2.heap, hr.heap])
+          (by simp [State.leave, hr2.cfg])
+      exact h1.change (fun _ _ _ => rfl) rfl rfl h1.rng
+theorem simL (ext : String → List V → V) (cb : List (String × List (Sym × Range.Bound))) :
+    ∀ (ss : List Stmt) {Γ Γ' : CEnv} {cs : List CStmt}
     {σ σ' : State V} {c : CState V}, compL Γ ss = .ok (cs, Γ') → Γ'.modOK = true → Γ.renv ≠ [] →
     execL ext ss σ = .ok σ' → Rep Γ σ c → Fresh (bindersL ss) Γ σ →
-    SimConcl (bindersL ss) Γ' σ σ' cs c
+    Γ.cb = cb → CallsOKL V cb ss → SimConcl (bindersL ss) Γ' σ σ' cs c
   | [], Γ, Γ', cs, σ, σ', c, hc, _, _, he, hr, _ => by
+      intro hΓcb hco
       simp only [compL, pure, Except.pure, Except.ok.injEq, Prod.mk.injEq] at hc
       simp only [execL, pure, Except.pure, Except.ok.injEq] at he
       obtain ⟨rfl, rfl⟩ := hc; subst he
       exact ⟨c, rfl, hr, rfl, fun y hy _ => hy⟩
   | s :: r, Γ, Γ', cs, σ, σ', c, hc, hm, hne, he, hr, hf => by
+      intro hΓcb hco
       simp only [compL] at hc
       obtain ⟨⟨c1, Γ1⟩, hs, hc⟩ := bind_ok hc
       obtain ⟨⟨c2, Γ2⟩, hcr, hc⟩ := bind_ok hc
@@ -462,14 +525,14 @@ theorem simL (ext : String → List V → V) : ∀ (ss : List Stmt) {Γ Γ' : CE
       have hnd := hf.nodup
       simp only [bindersL, List.nodup_append] at hnd
       have hfs : Fresh (bindersS s) Γ σ := hf.sub (by simp [bindersL])
-      obtain ⟨ca, hca, hra, hea, hva⟩ := simS ext s hs hm1 hne hs1 hr hfs
+      obtain ⟨ca, hca, hra, hea, hva⟩ := simS ext cb s hs hm1 hne hs1 hr hfs hΓcb hco.1
       have hfr : Fresh (bindersL r) Γ1 σ1 :=
         ⟨hnd.2.1, fun b hb => by rw [hea]; exact hf.env b (by simp [bindersL, hb]),
          fun b hb => hva b (hf.views b (by simp [bindersL, hb]))
            (fun hbs => hnd.2.2 b hbs b hb rfl),
          fun b hb => by rw [st1.refs]; exact hf.refs b (by simp [bindersL, hb]),
          fun b hb => by rw [st1.known]; exact hf.known b (by simp [bindersL, hb])⟩
-      obtain ⟨cb, hcb, hrb, heb, hvb⟩ := simL ext r hcr hm hne1 he hra hfr
+      obtain ⟨cb, hcb, hrb, heb, hvb⟩ := simL ext cb r hcr hm hne1 he hra hfr (st1.cb.trans hΓcb) hco.2
       refine ⟨cb, by rw [execCL_append, hca]; exact hcb, hrb, heb.trans hea, fun y hy hyb => ?_⟩
       simp only [bindersL, List.mem_append, not_or] at hyb
       exact hvb y (hva y hy hyb.1) hyb.2
